@@ -259,6 +259,23 @@ func runHistory(cc crashCase, which string) (sig, detail string, st historyStats
 		if sp.Chunk+in.ChunkDelta >= 1 {
 			sp.Chunk += in.ChunkDelta
 		}
+		if in.Kind == "wfail" {
+			// writes to any file fail beyond an offset inside the largest file (disk-full like fault)
+			maxSize := 0
+			for _, f := range cc.X.Tree.Files() {
+				if f.Size > maxSize {
+					maxSize = f.Size
+				}
+			}
+			sp.Kind, sp.KillAt = "none", 0
+			sp.FsizeLimit = int64(in.At*float64(maxSize)) + 1
+			if sp.FsizeLimit < 600 {
+				sp.FsizeLimit = 600 // keep journal, result and metadata files writable
+			}
+			if maxSize <= 600 {
+				sp.FsizeLimit = 0
+			}
+		}
 		before := scanSidecars(e.out, e.p.m)
 		loadable := loadableSet(e, sp.Chunk)
 		oc, rerr := e.run(sp)
@@ -298,6 +315,14 @@ func runHistory(cc crashCase, which string) (sig, detail string, st historyStats
 			}
 		} else if in.Kind == "drop" {
 			st.drops++
+		} else if in.Kind == "wfail" && sp.FsizeLimit > 0 {
+			st.sites["write-failure-run"]++
+			s, d, bits, unfl := c05Inspect(e, oc, loadable)
+			st.setBits += bits
+			st.unflushed += unfl
+			if s != "" && which == "C05" {
+				return s, desc + fmt.Sprintf(", output writes failing beyond offset %d: ", sp.FsizeLimit) + d, st, nil
+			}
 		}
 		if oc.Result != nil && oc.Result.SendErr == "" && oc.Result.RecvErr == "" && !oc.Result.Hung {
 			break // the run completed before the interruption point was reached
@@ -354,7 +379,7 @@ func genCrashCase(t *rapid.T) crashCase {
 	n := rapid.IntRange(1, 3).Draw(t, "chain")
 	for i := 0; i < n; i++ {
 		cc.Chain = append(cc.Chain, interruption{
-			Kind:       rapid.SampledFrom([]string{"kill", "kill", "kill", "drop"}).Draw(t, fmt.Sprintf("ikind%d", i)),
+			Kind:       rapid.SampledFrom([]string{"kill", "kill", "kill", "drop", "wfail"}).Draw(t, fmt.Sprintf("ikind%d", i)),
 			At:         frac(t, fmt.Sprintf("iat%d", i)),
 			FlushEvery: rapid.SampledFrom([]int{0, 1, 1, 2, 3}).Draw(t, fmt.Sprintf("iflush%d", i)),
 			ExitFlush:  rapid.Bool().Draw(t, fmt.Sprintf("iexitflush%d", i)),
@@ -417,7 +442,9 @@ func TestVerifC05Kills(t *testing.T) {
 	rapid.Check(t, func(rt *rapid.T) {
 		cc := genCrashCase(rt)
 		for i := range cc.Chain {
-			cc.Chain[i].Kind = "kill"
+			if cc.Chain[i].Kind != "wfail" {
+				cc.Chain[i].Kind = "kill"
+			}
 			if cc.Chain[i].FlushEvery == 0 && i%2 == 0 {
 				cc.Chain[i].FlushEvery = 1
 			}
